@@ -351,6 +351,11 @@ func (s *Solver) fallback(extra *Term, wantModel bool) (SatResult, Model) {
 			<-done
 		}
 		text := out.String()
+		// an "unsat" verdict followed by the (get-value ...) error "model is not available" is a verdict, not a failure
+		if t := strings.TrimSpace(text); strings.HasPrefix(t, "unsat") && !strings.Contains(firstLine(t), "(error") {
+			noteBackend(be.name)
+			return ResUnsat, nil
+		}
 		if strings.Contains(text, "(error") {
 			if gDebug {
 				fmt.Println("FALLBACK ERROR", be.name, firstLine(text))
